@@ -17,7 +17,9 @@ def main():
     from outrank import core_utils as CU
     rng = np.random.default_rng(1600 + h.seed)
     quick = h.tier == 'quick'
-    atoms = ['', 'a', 'b c', ' lead', 'trail ', 'é', '0', 'x,y', 'q"uote', "it's", '{}', 'a|b', 'k_1', '-', ' ']
+    atoms = ['', 'a', 'b c', ' lead', 'trail ', 'é', '0', 'x,y', 'q"uote', "it's", '{}', 'a|b', 'k_1', '-', ' ',
+             # characters str.splitlines() treats as line boundaries although a text file read line by line does not
+             'page\x0cbreak', 'v\x0bt', 'fs\x1cgs\x1d', 'next\x85line', 'ls\u2028ps\u2029']
     n_rows = 300 if quick else 5000
     # ---- string laws assumed by the deductive side (str.split/join, rstrip) on real python strings
     for _ in range(n_rows):
